@@ -17,7 +17,7 @@ from sim.driver import Report
 PROP = "C12"
 TIERS = {"quick": {"pairs": 100, "envs": 7, "budget": 70.0}, "thorough": {"pairs": 1200, "envs": 12, "budget": 1500.0}}
 SCRATCH = "/dev/shm" if os.path.isdir("/dev/shm") else tempfile.gettempdir()
-E0 = {"route": "api", "heap": 0, "dir_seed": 0, "clock": "2001-02-03T04:05:06", "history": [], "cache": 0, "repeat": 1, "history_same_package": 0, "environ": None, "source_copy": None, "config_version": None, "config_text": None, "source_spelling": None, "optimize": 0, "init_roundtrip": 0, "mixed_parity": 0, "ruff_delay": 0, "edit_between": 0}
+E0 = {"route": "api", "heap": 0, "dir_seed": 0, "clock": "2001-02-03T04:05:06", "history": [], "cache": 0, "repeat": 1, "history_same_package": 0, "environ": None, "source_copy": None, "config_version": None, "config_text": None, "source_spelling": None, "optimize": 0, "init_roundtrip": 0, "mixed_parity": 0, "ruff_delay": 0, "edit_between": 0, "config_in_source": 0}
 ROUTES = ["api", "api_file", "cli_flags", "cli_config", "cli_mixed"]
 
 
@@ -153,7 +153,7 @@ def gen_env(rng, srcs):
     if rng.random() < 0.25:
         env["config_text"] = sorted(rng.sample(["bool10", "comment", "nodecl", "crlf", "bom"], rng.choice([1, 1, 2, 3])))
     if rng.random() < 0.25:
-        env["source_spelling"] = rng.choice(["rel", "dot", "slash", "dotdot", "uri"])
+        env["source_spelling"] = rng.choice(["rel", "dot", "slash", "dotdot", "uri", "uri1"])
     if rng.random() < 0.2:
         env["init_roundtrip"] = 1  # the project file is refreshed with `xsdata init-config <file>` before it is used
     if rng.random() < 0.5:
@@ -167,8 +167,12 @@ def gen_env(rng, srcs):
             env["source_copy"] = "checkout/src"
     if rng.random() < 0.04:
         env["ruff_delay"] = 12  # the formatter takes its time this once (cold cache, loaded machine)
+    if rng.random() < 0.12:
+        env["config_in_source"] = 1  # the project file lives in the source directory
+        if not env.get("source_copy"):
+            env["source_copy"] = "checkout/src"
     if rng.random() < 0.1:
-        env["optimize"] = 1  # python -O
+        env["optimize"] = rng.choice([1, 2])  # python -O / -OO
     if rng.random() < 0.12:
         # a locale whose preferred encoding is ASCII: whatever is read or written without an explicit encoding differs
         env["environ"] = dict(env.get("environ") or {}, LC_ALL="C", PYTHONUTF8="0", PYTHONCOERCECLOCALE="0")
@@ -207,7 +211,7 @@ def run_child(source, recursive, params, env, timeout=600.0):
         penv.update(env.get("environ") or {})
         penv["PYTHONDONTWRITEBYTECODE"] = "1"
         penv["VERIF_RUFF_DELAY"] = str(env.get("ruff_delay") or 0)
-        cmd = [sys.executable] + (["-O"] if env.get("optimize") else []) + [os.path.join(core.VERIF, "sim", "c12_child.py")]
+        cmd = [sys.executable] + (["-O" * 1 if env.get("optimize") == 1 else "-OO"] if env.get("optimize") else []) + [os.path.join(core.VERIF, "sim", "c12_child.py")]
         setarch = shutil.which("setarch")
         if setarch:
             cmd = [setarch, os.uname().machine, "-R"] + cmd
@@ -270,7 +274,7 @@ def minimize_env(source, recursive, params, env, ref, sigkind):
     """Reset environment components to E0 one at a time while the difference persists."""
     best = dict(env)
     trials = 0
-    for key in ("source_copy", "environ", "history_same_package", "history", "cache", "repeat", "dir_seed", "heap", "init_roundtrip", "config_text", "config_version", "source_spelling", "optimize", "mixed_parity", "ruff_delay", "edit_between", "route", "clock", "hashseed"):
+    for key in ("source_copy", "environ", "history_same_package", "history", "cache", "repeat", "dir_seed", "heap", "init_roundtrip", "config_text", "config_version", "source_spelling", "optimize", "mixed_parity", "ruff_delay", "edit_between", "config_in_source", "route", "clock", "hashseed"):
         default = E0.get(key, 0)
         if best.get(key, default) == default:
             continue
